@@ -128,7 +128,7 @@ static void strs(void)
 			printf("%s[", a ? "," : "");
 			for (z = 0; z <= n; z++) {
 				printf("%s[", z ? "," : "");
-				if (a <= z) {
+				{	/* also for an inverted range: nothing lies between */
 					char *r = uc_sub(s, a, z);
 					for (i = 0; r[i]; i++)
 						printf("%s%d", i ? "," : "", (unsigned char) r[i]);
@@ -136,6 +136,15 @@ static void strs(void)
 				}
 				printf("]");
 			}
+			printf("]");
+		}
+		printf("],\"subend\":[");	/* end = -1: up to the end of the string */
+		for (a = 0; a <= n; a++) {
+			char *r = uc_sub(s, a, -1);
+			printf("%s[", a ? "," : "");
+			for (i = 0; r[i]; i++)
+				printf("%s%d", i ? "," : "", (unsigned char) r[i]);
+			free(r);
 			printf("]");
 		}
 		printf("]}\n");
